@@ -453,7 +453,7 @@ func (a AddFuncScopeInstr) Execute(env *Zlisp) error {
 	sc := env.NewNamedScope(fmt.Sprintf("%s at pc=%v",
 		env.curfunc.name, env.pc))
 	sc.IsFunction = true
-	sc.MyFunction = a.Helper.MyFunction
+	sc.MyFunction = env.curfunc
 	env.linearstack.Push(sc)
 	env.pc++
 	return nil
